@@ -52,3 +52,24 @@ CFG = dict(
      level_note="Trusts the Go runtime, the race detector, rapid and the harness' reference encoder/decoder (refenc, self-checked against the repository's fixtures).",
      timeout_quick=900, timeout_thorough=3000)
 CFG["rule"] += " One cast in three runs its first concurrent phase COLD, before anything of it has run alone (first use of every lazily built table or cache entry happens under concurrency); time-zone names are drawn from the whole tz database; sym/sig/rsa workers carry key IDs, the same ID on different keys; results are also compared with the reference result under the worker's own key (mark BROKEN). TestSymHammer: every symmetric algorithm name, 4-16 goroutines with own keys, thousands of calls each, exact per-call reference oracle."
+CFG["rule"] += (" FAILING pipelines next to pipelines that must succeed: an enc worker may carry a failure kind (about one worker in seven; "
+                "in the failure-heavy casting style, 2 casts in 13, two enc workers in three), i.e. its pipeline fails at its caller's own doing "
+                "in one of the ways the API documents, and the failure text is its result: key name, decryption key name or wrapped key so long "
+                "that the header cannot fit in 64 KiB (key names of 66000..90000 characters, and key names within 450 characters of the bound, "
+                "which fit or not), unknown Algorithm / Cipher names, missing KeyName / WrapKeyFn / UnwrapKeyFn, a wrap callback that returns an "
+                "error or an empty key, OmitKeyName without a key name for Decrypt, a plaintext or document source that fails with an error of its "
+                "own after 0..1000 permille of its bytes, a document cut at 0..1000 permille (truncated input). sym workers likewise: unknown "
+                "algorithm name, nonce one byte too long, key eight bytes too long, damaged tag / ciphertext given to Decrypt; sig and rsa workers: "
+                "unknown algorithm name. Already in the SOLO phase (workers run one after the other in cast order) every enc worker without "
+                "failure kind and tamper must round-trip, whatever failed before it. OWN workers (kind own): a caller keeps what a package "
+                "function returned to it and scribbles over it in place (sort, reverse, overwrite every element, in-place filter list[:0]+append, "
+                "delete the first element, clear) - targets: crypto.SupportedSymmetricAlgorithms / SupportedAsymmetricAlgorithms / "
+                "SupportedSignatureAlgorithms ([]string), enc.KeyAlgorithm.MarshalJSON / enc.Cipher.MarshalJSON ([]byte), cron.ParseStandard and an "
+                "own Parser's Parse of fixed descriptors and field lists (*cron.SpecSchedule: the fields are swapped, overwritten, masked, zeroed). "
+                "Its result is the content of a FRESH call before and after the scribbling, marked BROKEN when it is not what the first call of "
+                "the process returned (captured for every target before any worker has scribbled over anything), and marked BROKEN when the "
+                "worker's own scribbled result changes while the worker holds it.")
+CFG["assumptions"].append("what a call returned is the caller's to keep and modify: none of crypto.Supported*Algorithms, KeyAlgorithm/Cipher.MarshalJSON, "
+                          "cron.ParseStandard / Parser.Parse documents that its result is shared or read-only, and SpecSchedule's fields are exported")
+CFG["assumptions"].append("failing pipelines: only failures the caller provokes through documented inputs (options, callbacks, streams); which of the borderline key names "
+                          "fit in the header is not asserted, only that the outcome equals the worker's solo outcome")
